@@ -21,9 +21,10 @@ def bounds(tier):
 
 
 def configs(tier, seed):
-    out = [dict(n=n, timeout=400 if tier == "quick" else 1200) for n in (1, 2, 3)]
+    out = [dict(n=n, root=None, timeout=400 if tier == "quick" else 1200) for n in (1, 2)]
+    out += [dict(n=3, root=r, timeout=400 if tier == "quick" else 1200) for r in range(4)]
     if tier == "thorough":
-        out.append(dict(n=4, timeout=3000))
+        out += [dict(n=4, root=r, timeout=3000) for r in range(5)]
     return out
 
 
@@ -35,11 +36,12 @@ def run_config(cfg):
     toposort_edges([EdgeType(0, 1), EdgeType(1, 2)])  # warm-up
     C._check([0, 1], [1, 2])
     rep = Report(cfg)
-    fn = getattr(C, f"edge_order_complete_and_parent_first_{cfg['n']}")
+    fn = getattr(C, f"edge_order_complete_and_parent_first_{cfg['n']}" + (f"_r{cfg['root']}" if cfg.get("root") is not None else ""))
     r = chrunner.run_contract(fn, per_condition_timeout=cfg["timeout"], per_path_timeout=60)
     rep.paths = 1
     rep.nontrivial_paths = 1
     name = f"CH-edge-order-complete-and-parent-first[{cfg['n']} edges]"
+    rep.notes.append(f"root={cfg.get('root')}")
     if r["state"] == "CONFIRMED":
         rep.record(name, "unsat", r["solver_s"])
     elif r["state"] == "REFUTED":
